@@ -3,6 +3,7 @@ import PdfModel.Model.Derive
 import PdfModel.Generated.Schemas
 import PdfModel.Generated.Dispatch
 import PdfModel.Model.Handwritten2
+import PdfModel.Model.ColorSpaceWrite
 import PdfModel.Generated.Lexical
 
 /-! Line-protocol handler for the C15 streams (also used by Drv/C18).
@@ -390,9 +391,70 @@ def handleVw (args : List String) : String :=
     | _, _, _, _, _, _ => "bad-request"
   | _ => "bad-request"
 
+/-! ### `ColorSpace::to_primitive` (`c15.cs <value>`)
+
+  value   C | R | G | P | N<hexname> | K(<dict prim>) | I(<value>;<hival>;<hex bytes or ->)
+  answer  `unwritable` (the `unimplemented!()` arm) or `ok <written> <same|differs|rerr>`: the written form (a stream the
+          writer made is shown as `X{dict}~data`), and what reading it back gives -/
+
+partial def parseCS : List Char → Option (CSLoad.CS × List Char)
+  | 'C' :: r => some (.deviceCMYK, r)
+  | 'R' :: r => some (.deviceRGB, r)
+  | 'G' :: r => some (.deviceGray, r)
+  | 'P' :: r => some (.pattern, r)
+  | 'N' :: r =>
+    let tok := r.takeWhile fun c => c.isAlphanum
+    match bytesOfHex (String.ofList tok) with
+    | some bs => some (.named (String.ofList (bs.map fun b => Char.ofNat b.toNat)), r.drop tok.length)
+    | none => none
+  | 'K' :: '(' :: r =>
+    let tok := r.takeWhile fun c => c != ')'
+    match parsePrimAll (String.ofList tok), r.drop tok.length with
+    | some (.dict d), ')' :: r2 => some (.calGray d, r2)
+    | _, _ => none
+  | 'I' :: '(' :: r =>
+    match parseCS r with
+    | some (base, ';' :: r1) =>
+      let htok := r1.takeWhile fun c => c.isDigit
+      match (String.ofList htok).toNat?, r1.drop htok.length with
+      | some h, ';' :: r2 =>
+        let btok := r2.takeWhile fun c => c != ')'
+        let bs := if btok == ['-'] then some [] else bytesOfHex (String.ofList btok)
+        match bs, r2.drop btok.length with
+        | some b, ')' :: r3 => some (.indexed base h (.bytes b), r3)
+        | _, _ => none
+      | _, _ => none
+    | _ => none
+  | _ => none
+
+partial def showW (made : CSLoad.Made) : Prim → String
+  | .arr xs => "[" ++ ",".intercalate (xs.map (showW made)) ++ "]"
+  | .ref id g =>
+    match made.find? (fun e => e.1 == id) with
+    | some (_, info, data) => "X" ++ showPrim (.dict info) ++ "~" ++ hexOfBytes data
+    | none => showPrim (.ref id g)
+  | p => showPrim p
+
+def handleCs (args : List String) : String :=
+  match args with
+  | [_, v] =>
+    match parseCS v.toList with
+    | some (cs, []) =>
+      match CSLoad.csWrite 1000000 cs with
+      | .error _ => "unwritable"
+      | .ok (p, made, _) =>
+        let se : CSLoad.SEnv := { env := mkEnv [] [] false, streams := fun id => (made.find? (fun e => e.1 == id)).map (·.2) }
+        let back := match CSLoad.csLoad se p with
+          | .ok cs2 => if CSLoad.CS.same cs cs2 then "same" else "differs"
+          | .error _ => "rerr"
+        s!"ok {showW made p} {back}"
+    | _ => "bad-request"
+  | _ => "bad-request"
+
 def handle (args : List String) : String :=
   match args with
   | "c15.rt" :: _ => handleRt args
+  | "c15.cs" :: _ => handleCs args
   | "c15.vw" :: _ => handleVw args
   | "c15.hw" :: _ => handleHw args
   | ["c15.f32", i] =>
